@@ -377,3 +377,43 @@ REG.contract(
          "labels for a relative name), lower-cased iff canonicalize, never a compression pointer; NeedAbsoluteNameOrOrigin "
          "exactly when relative without an absolute origin",
 )
+
+# ----------------------------------------------------------------------------- C01-P8 / C03 / C08: compressed wire form
+_OLDLEN = "len(old_file.getvalue())"
+_TABLE_OK = "all(0 <= compress[k] and compress[k] <= 0x3FFF for k in compress)"
+_TABLE_FRAME = [
+    "compress is None or all((k in compress) and compress[k] == old_compress[k] for k in old_compress)",
+    f"compress is None or all((k in old_compress) or ({_OLDLEN} <= compress[k] and compress[k] < len(file.getvalue()) and compress[k] <= 0x3FFF) for k in compress)",
+]
+REG.contract(
+    "dns.name.Name.to_wire#file",
+    target="dns.name.Name.to_wire",
+    params={"self": NAME, "file": T.bytesio, "compress": T.opt(T.map_of(T.int, T.int)), "origin": T.opt(NAME), "canonicalize": T.bool},
+    requires=["file.tell() == len(file.getvalue())", f"compress is None or {_TABLE_OK}"],
+    raises=[("dns.name.NeedAbsoluteNameOrOrigin", f"(not {ISABS('self')}) and (origin is None or not {_ISABS_O})"),
+            ("dns.name.NameTooLong", f"(not {ISABS('self')}) and origin is not None", "may")],
+    loops={
+        2: loop(index="idx", invariant=[
+            "i == idx",
+            "all(len(labels[k]) <= 63 for k in range(len(labels)))",
+            "all(labels[k] != b'' for k in range(len(labels) - 1))",
+            "len(labels) >= 1",
+            f"idx == 0 or len(file.getvalue()) > {_OLDLEN}",
+            f"file.tell() == len(file.getvalue()) and len(file.getvalue()) >= {_OLDLEN}",
+            f"file.getvalue()[:{_OLDLEN}] == old_file.getvalue()",
+            f"compress is None or {_TABLE_OK}",
+        ] + _TABLE_FRAME, modifies={}),
+    },
+    ensures=[
+        "result is None",
+        f"file.tell() == len(file.getvalue()) and len(file.getvalue()) > {_OLDLEN}",
+        f"file.getvalue()[:{_OLDLEN}] == old_file.getvalue()",
+        f"compress is None or {_TABLE_OK}",
+    ] + _TABLE_FRAME,
+    ensures_raise=[f"file.getvalue()[:{_OLDLEN}] == old_file.getvalue()"],
+    heavy=True,
+    props=["C01", "C03", "C08"],
+    note="file/compress form: bytes are only appended; a table entry is added only with the offset at which the suffix starts "
+         "in this output, inside the bytes this call wrote, and never above 0x3FFF; existing entries are never changed; a "
+         "pointer is packed from a table value, which the table invariant keeps within 14 bits (struct.pack range obligation)",
+)
